@@ -85,6 +85,23 @@ JudgeRoots(e) ==
   ELSE IF e.leafDiff = <<>> THEN <<"Inv.RootAsIfNeverExecuted.unclassified">>
   ELSE SetToSeq({DiffClass(e.leafDiff[i]) : i \in 1..Len(e.leafDiff)})
 
+(* the same comparison on the queries: after the calls so far every query answers as it    *)
+(* does on the twin that ran only the surviving calls (a reverted call leaves no trace,    *)
+(* not even one that only a later call reveals, such as the index of the next log)         *)
+TwinTag(f) ==
+  CASE f = 1 -> "Inv.QueriesAsIfNeverExecuted.existence"   [] f = 2 -> "Inv.QueriesAsIfNeverExecuted.empty"
+    [] f = 3 -> "Inv.QueriesAsIfNeverExecuted.nonce"       [] f = 4 -> "Inv.QueriesAsIfNeverExecuted.code"
+    [] f = 5 -> "Inv.QueriesAsIfNeverExecuted.codeSize"    [] f = 6 -> "Inv.QueriesAsIfNeverExecuted.codeHash"
+    [] f = 7 -> "Inv.QueriesAsIfNeverExecuted.storage"     [] f = 8 -> "Inv.QueriesAsIfNeverExecuted.suicided"
+    [] f = 9 -> "Inv.QueriesAsIfNeverExecuted.balance"     [] f = 10 -> "Inv.QueriesAsIfNeverExecuted.refund"
+    [] f = 11 -> "Inv.QueriesAsIfNeverExecuted.logs"       [] f = 12 -> "Inv.QueriesAsIfNeverExecuted.logIndex"
+    [] f = 13 -> "Inv.QueriesAsIfNeverExecuted.accessAddresses" [] f = 14 -> "Inv.QueriesAsIfNeverExecuted.accessSlots"
+    [] f = 15 -> "Inv.QueriesAsIfNeverExecuted.transient"
+JudgeTwinQueries(e) ==
+  IF e.stateReal.panic # "" \/ e.stateTwin.panic # "" THEN <<"Inv.CallCompletes">>
+  ELSE LET fs == SelectSeq([f \in 1..NF |-> IF SameField(e.stateReal, e.stateTwin, f) THEN 0 ELSE f], LAMBDA x : x # 0)
+       IN  [k \in 1..Len(fs) |-> TwinTag(fs[k])]
+
 BalStr(n) == ToString(n)
 StartCoherent(e) ==
   LET m == Start(e.a) IN
@@ -98,7 +115,7 @@ Judge(e) ==
   CASE e.event = "Reset" -> Tag(StartCoherent(e), "Proj.startState")
     [] e.event = "SNAP"  -> Tag(\A f \in 1..NF : SameField(st, e.state, f), "Inv.SnapshotIsPure")
     [] e.event = "REV"   -> JudgeRevert(e)
-    [] e.event \in {"Cut", "Final"} -> IF tainted THEN <<>> ELSE JudgeRoots(e)
+    [] e.event \in {"Cut", "Final"} -> IF tainted THEN <<>> ELSE JudgeRoots(e) \o JudgeTwinQueries(e)
     [] OTHER -> <<>>
 
 (* how often a revert had to restore query f (vacuity counters) *)
@@ -118,7 +135,7 @@ TraceNext ==
          r == Restored(e)
      IN  /\ st' = IF e.event \in {"Cut", "Final"} THEN st ELSE e.state
          /\ tainted' = IF e.event = "Reset" THEN FALSE
-                        ELSE tainted \/ (e.event \in {"Cut", "Final"} /\ JudgeRoots(e) # <<>>)
+                        ELSE tainted \/ (e.event \in {"Cut", "Final"} /\ JudgeRoots(e) \o JudgeTwinQueries(e) # <<>>)
          /\ start' = IF e.event = "Reset" THEN e.a ELSE start
          /\ snaps' = CASE e.event \in {"Reset", "FIN", "Final"} -> <<>>
                        [] e.event = "Cut" -> snaps
